@@ -45,6 +45,35 @@ var pkgVars = map[string]map[string]bool{}
 // exportedVars: exported package-level variables of any package of the module.
 var exportedVars = map[string]bool{}
 
+// mapVars[dir]: package-level variables that are maps (by declared type or initialiser);
+// mapRanges: `range` statements over such a variable, over a local initialised as a map, or
+// over a map literal / make(map...) - Go randomises the order, the simulator cannot own it.
+var (
+	mapVars   = map[string]map[string]bool{}
+	mapRanges []string
+)
+
+func isMapExpr(e ast.Expr) bool {
+	switch x := e.(type) {
+	case *ast.MapType:
+		return true
+	case *ast.CompositeLit:
+		_, ok := x.Type.(*ast.MapType)
+		return ok
+	case *ast.CallExpr:
+		if id, ok := x.Fun.(*ast.Ident); ok && id.Name == "make" && len(x.Args) > 0 {
+			_, ok := x.Args[0].(*ast.MapType)
+			return ok
+		}
+		if se, ok := x.Fun.(*ast.SelectorExpr); ok {
+			if id, ok := se.X.(*ast.Ident); ok && id.Name == "maps" {
+				return true // maps.Keys / maps.Values / maps.All: iteration order of a map
+			}
+		}
+	}
+	return false
+}
+
 type site struct {
 	File  string `json:"file"`
 	Line  int    `json:"line"`
@@ -145,7 +174,20 @@ func main() {
 			if gd, ok := d.(*ast.GenDecl); ok && gd.Tok == token.VAR {
 				for _, sp := range gd.Specs {
 					if vs, ok := sp.(*ast.ValueSpec); ok {
-						for _, n := range vs.Names {
+						for i, n := range vs.Names {
+							isMap := vs.Type != nil && isMapExpr(vs.Type)
+							if i < len(vs.Values) && isMapExpr(vs.Values[i]) {
+								isMap = true
+							}
+							if isMap {
+								if mapVars[dir] == nil {
+									mapVars[dir] = map[string]bool{}
+								}
+								mapVars[dir][n.Name] = true
+								if n.IsExported() {
+									exportedMapVars[n.Name] = true
+								}
+							}
 							if n.Name != "_" {
 								pkgVars[dir][n.Name] = true
 								if n.IsExported() {
@@ -209,6 +251,27 @@ func main() {
 			}
 		}
 		curVars = pkgVars[filepath.Dir(f)]
+		curMapVars = mapVars[filepath.Dir(f)]
+		curLocalMaps = map[string]bool{}
+		ast.Inspect(af, func(n ast.Node) bool {
+			switch x := n.(type) {
+			case *ast.AssignStmt:
+				for i, r := range x.Rhs {
+					if i < len(x.Lhs) && isMapExpr(r) {
+						if id, ok := x.Lhs[i].(*ast.Ident); ok {
+							curLocalMaps[id.Name] = true
+						}
+					}
+				}
+			case *ast.ValueSpec:
+				for i, nm := range x.Names {
+					if (x.Type != nil && isMapExpr(x.Type)) || (i < len(x.Values) && isMapExpr(x.Values[i])) {
+						curLocalMaps[nm.Name] = true
+					}
+				}
+			}
+			return true
+		})
 		res := instrumentFile(fset, af, src, rel, *repoint)
 		if res.importsSync {
 			syncFiles = append(syncFiles, rel)
@@ -271,6 +334,7 @@ func main() {
 	summary["go_statements"] = goStmts
 	// sources of nondeterminism the simulator does not own (none on the pinned tree)
 	summary["uncontrolled_imports"] = uncontrolled
+	summary["map_ranges"] = mapRanges
 	summary["chan_ops"] = chanOps
 	b, _ := json.MarshalIndent(summary, "", " ")
 	fmt.Println(string(b))
@@ -415,6 +479,10 @@ func instrumentFile(fset *token.FileSet, af *ast.File, src []byte, rel string, r
 				walkBody(x.Body, clsLoop)
 				return false
 			case *ast.RangeStmt:
+				if rangesOverMap(x.X) {
+					p := fset.Position(x.Pos())
+					mapRanges = append(mapRanges, fmt.Sprintf("%s:%d", rel, p.Line))
+				}
 				walk(x.X)
 				walkBody(x.Body, clsLoop)
 				return false
@@ -488,6 +556,27 @@ func instrumentFile(fset *token.FileSet, af *ast.File, src []byte, rel string, r
 	}
 	return res
 }
+
+// curMapVars: map-typed package-level variables of the package being instrumented;
+// curLocalMaps: local variables assigned a map in the file being instrumented (by name).
+var (
+	curMapVars   map[string]bool
+	curLocalMaps map[string]bool
+)
+
+func rangesOverMap(e ast.Expr) bool {
+	switch x := e.(type) {
+	case *ast.Ident:
+		return curMapVars[x.Name] || curLocalMaps[x.Name]
+	case *ast.SelectorExpr:
+		return exportedMapVars[x.Sel.Name]
+	case *ast.ParenExpr:
+		return rangesOverMap(x.X)
+	}
+	return isMapExpr(e)
+}
+
+var exportedMapVars = map[string]bool{}
 
 func recvName(e ast.Expr) string {
 	switch x := e.(type) {
